@@ -34,10 +34,17 @@ theorem runOps_facts (ops : List HOp) : ∀ (s : Sts),
       simp only [List.append_assoc, List.singleton_append] at this
       exact this
 
-theorem trailerCode_ne_zero (e : HErr) : HttpServerStream.trailerCode (some e) ≠ 0 := by
+theorem unaryCode_ne_zero (e : HErr) : unaryCode e ≠ 0 := by
   cases e with
-  | status c => simp only [HttpServerStream.trailerCode]; split <;> simp_all
-  | plain => simp [HttpServerStream.trailerCode]
-  | ctx r => cases r <;> simp [HttpServerStream.trailerCode, codeOf]
+  | status c => by_cases h0 : c = 0 <;> simp [unaryCode, baseCode, Gen.unaryOkRewrite, h0]
+  | plain => simp [unaryCode, baseCode]
+  | ctx r => cases r <;> simp [unaryCode, baseCode, codeOf]
+
+/-- the unary and the stream handler render the same code for the same error -/
+theorem unaryCode_eq_trailerCode (e : HErr) : unaryCode e = HttpServerStream.trailerCode (some e) := by
+  cases e with
+  | status c => by_cases h0 : c = 0 <;> simp [unaryCode, baseCode, HttpServerStream.trailerCode, Gen.unaryOkRewrite, Gen.streamOkRewrite, h0]
+  | plain => simp [unaryCode, baseCode, HttpServerStream.trailerCode]
+  | ctx r => cases r <;> simp [unaryCode, baseCode, HttpServerStream.trailerCode, codeOf]
 
 end HttpUnary
